@@ -754,8 +754,10 @@ class Interp2(Interp):
         raise OutOfReach('setattr on %r' % (o,))
 
     def check_slot(self, cls, name):
-        """AttributeError if the class has __slots__ everywhere and name is not a slot."""
+        """AttributeError if the class has __slots__ everywhere and name is not a slot; returns the (concrete) name.
+        A symbolic name is compared with every slot of the MRO (one branch per slot)."""
         has_dict = False
+        slots = []
         for k in cls.__mro__:
             if k is object:
                 continue
@@ -765,10 +767,18 @@ class Interp2(Interp):
             sl = k.__dict__['__slots__']
             if isinstance(sl, str):
                 sl = [sl]
-            if name in sl:
-                return
-        if not has_dict:
+            slots.extend(sl)
+        if isinstance(name, str):
+            if has_dict or name in slots:
+                return name
             self.raise_exc(AttributeError, name)
+        if has_dict:
+            raise OutOfReach('attribute store with a symbolic name on an object with a __dict__')
+        t = self.seq_term(name)
+        for s_ in slots:
+            if self.decide(t == self.seq_term(s_)):
+                return s_
+        self.raise_exc(AttributeError, 'symbolic name that is no slot')
 
     def delattr(self, o, name):
         if isinstance(o, Ref):
